@@ -464,8 +464,16 @@ func (e *EdgeQuery) findEdgesInternal(target distanceTarget, opts *queryOptions)
 	// distanceLimit < maxError, this reduces the distance limit to 0,
 	// i.e. all remaining candidate cells and edges can safely be discarded.
 	// (This is how IsDistanceLess() and friends are implemented.)
+	//
+	// setMaxError must be called on every query, also with a zero maxError:
+	// a target that takes advantage of it (a ShapeIndex target forwards it
+	// to its own query) would otherwise keep the value of an earlier call on
+	// the same target object, e.g. the StraightChordAngle that
+	// IsDistanceLess uses, and a later Distance or FindEdges call with that
+	// target would return approximate results.
+	targetTakesMaxError := e.target.setMaxError(opts.maxError)
 	targetUsesMaxError := opts.maxError != target.distance().zero().chordAngle() &&
-		e.target.setMaxError(opts.maxError)
+		targetTakesMaxError
 
 	// Note that we can't compare maxError and distanceLimit directly
 	// because one is a Delta and one is a Distance. Instead we subtract them.
